@@ -80,7 +80,7 @@ func strTrace(kind string, a, b uint64) {
 	if !strings.HasPrefix(kind, "s.") && !strings.HasPrefix(kind, "st.") {
 		return
 	}
-	id := goid()
+	id := goidC04()
 	run.mu.Lock()
 	defer run.mu.Unlock()
 	p := run.goids[id]
@@ -138,7 +138,7 @@ func strGate(point string, a, b uint64) {
 	if run == nil {
 		return
 	}
-	id := goid()
+	id := goidC04()
 	run.mu.Lock()
 	p := run.goids[id]
 	if p == nil {
@@ -163,7 +163,7 @@ func newStrRun(nprocs, nstreams int) *strRun {
 		run.procs = append(run.procs, p)
 		go func() {
 			run.mu.Lock()
-			run.goids[goid()] = p
+			run.goids[goidC04()] = p
 			run.mu.Unlock()
 			ready <- struct{}{}
 			for c := range p.cmd {
